@@ -116,10 +116,11 @@ def cases(tier, seed):
         yield "ig.coo", {"table": table, "px": px, "one_based": one_based, "tril": tril,
                          "via": via, "chunk": rng.choice([1, 2, 1000])}
     # tabix-indexed loader: sorted, upper-triangle, 1-based pairs
-    for h in range(40 if tier == "quick" else 400):
-        table = tables[h % len(tables)]
+    ttables = tables + [gen.binnify([12, 7], 1), gen.binnify([20], 2), gen.table_from_edges([[0, 1, 3, 4, 8, 9, 11, 12], [0, 2, 3, 6]])]
+    for h in range(60 if tier == "quick" else 600):
+        table = ttables[h % len(ttables)]
         bad = h % 6 == 5
-        recs = mk_records(rng, table, rng.randint(1, 8), allow_bad=False, unknown_rate=0.0)
+        recs = mk_records(rng, table, rng.randint(1, 8) if h % 2 else rng.randint(8, 30), allow_bad=False, unknown_rate=0.0)
         recs = [r if (r[0], r[1]) <= (r[2], r[3]) else [r[2], r[3], r[0], r[1]] for r in recs]
         if h % 2 == 0:
             # mates on chromosomes that are not in the bin table, several in a row (they must simply be dropped)
@@ -135,7 +136,7 @@ def cases(tier, seed):
         recs.sort(key=lambda r: (r[0], r[1], -r[2], r[3]))       # unknown mates first within a position
         recs = [[r[0], r[1] + 1, r[2], r[3] + 1] for r in recs]
         yield "ig.tabix", {"table": table, "recs": recs, "one_based": True, "tril": "none", "valued": False,
-                           "max_split": rng.choice([0, 1, 2])}
+                           "max_split": rng.choice([0, 1, 2, 3, 4, 6, 12])}       # chunks per chromosome (default 2)
 
 
 F3_KEY = "C05:F3:sanitize_records accepts a position equal to the chromosome length"
